@@ -1021,6 +1021,20 @@ class Interp:
                 else:
                     key = self.lvalue_key(t, st)
                     st.mem[key] = Rat.sym('%s@%d' % (key, cid))
+        # objects reachable through a pointer to non-const handed to a callee that may write: cells known so far hold
+        # unknown values afterwards
+        if name not in PURE_LIBM and name not in ('free', 'xrl_free', 'xrlFree') and st.mem:
+            for a, av in zip(node.get('args', []), args):
+                pt = (a.get('T') or '').strip()
+                if av is None or not pt.endswith('*') or pt.startswith('const ') or pt in ('struct _IO_FILE *',):
+                    continue
+                c_ = av.canon()
+                if c_ in ('0',):
+                    continue
+                pre = ('(%s).' % c_, '(%s)[' % c_, '%s.' % c_, '%s[' % c_, '*%s' % c_, '*(%s)' % c_, '(*%s)' % c_)
+                for key in list(st.mem):
+                    if key.startswith(pre):
+                        st.mem[key] = Rat.sym('%s@%d' % (key, cid))
         if self.on_math and name in ('log', 'log10', 'asin', 'acos', 'sqrt', 'pow'):
             self.on_math(node, name, args, st, self)
         res = None
@@ -1384,9 +1398,15 @@ class Interp:
                 h.mem[key] = Rat.sym('%s@L%d' % (key, lid))
             # an accumulator never passes back over the value it had on entry of the loop
             accum = {}
+            unchanged = {}
             for vid, direction in dict(self._mono_found).items():
                 pre = st.env.get(vid)
                 if pre is None or vid not in w:
+                    continue
+                if direction == 'same':
+                    # no completed iteration changes it: it still has its entry value at the start of every iteration
+                    unchanged[vid] = pre
+                    h.env[vid] = pre
                     continue
                 piv = self.interval_of(pre, st)
                 bound = Interval(piv.lo, None, piv.los, False) if direction == 'up' else Interval(None, piv.hi, False, piv.his)
@@ -1474,6 +1494,8 @@ class Interp:
                 for vid, bound in accum.items():
                     key_ = s.env[vid].canon()
                     s.facts[key_] = bound.copy()
+                for vid, pre in unchanged.items():
+                    s.env[vid] = pre
                 s.events.append(Event('loop-end', node=node, id=lid, loop=s.loopdepth))
                 if cond is not None:
                     _, f = self.branch(cond, [s])
@@ -1507,8 +1529,9 @@ class Interp:
                     except NotInClass:
                         pass
                 for e_ in s_.events[n0:]:
-                    if e_.kind == 'store' and e_.lv and '@L' not in e_.lv and '#' not in e_.lv:
-                        cells.add(e_.lv)
+                    if e_.kind == 'store' and e_.lv and not any(int(x) >= lid for x in re.findall(r'@L(\d+)', e_.lv)) and \
+                            not any(int(x) > lid for x in re.findall(r'#(\d+)', e_.lv)):
+                        cells.add(e_.lv)      # not the per-iteration cells (addressed through this loop's counters or results)
             # accumulators: variables whose value only moves one way in every completed iteration
             done = [s_ for s_ in after if s_.status in ('run', 'cont')]
             for vid, v0 in start_env.items():
@@ -1530,6 +1553,9 @@ class Interp:
                         dirs.add('down')
                     else:
                         dirs.add('?')
+                if dirs == {'same'}:
+                    self._mono_found[vid] = 'same'      # only written on paths that leave the loop
+                    continue
                 dirs.discard('same')
                 if dirs == {'up'} or dirs == {'down'}:
                     self._mono_found[vid] = dirs.pop()
